@@ -88,13 +88,27 @@ def v1(ctx, rep, T):
     else:
         rep.fail('V1', 'variant-id', f'variant id is not get_ident(..): {vt.show(idv)[:100]}', site)
     # tag / content
-    pe = ctx.fnx('parse_enum', file='parser.rs')     # inlined view: the keys may travel through a private helper type
+    # asked of the function as written (a multi-key look-up helper is judged by its summary) and, failing that, of the inlined
+    # view (the keys may travel through a private helper type): either view is the same program
+    pe0 = ctx.fn('parse_enum', file='parser.rs')
+    pe = ctx.fnx('parse_enum', file='parser.rs')
+    alg0 = [c for c in pe0['structs'] if c['path'] == 'RustEnum::Algebraic']
     alg = [c for c in pe['structs'] if c['path'] == 'RustEnum::Algebraic']
     rep.floor('V1', 'RustEnum::Algebraic construction', len(alg), 1)
     eparam = pe['params'][0]['name']
     for fld, want, other in (('tag_key', 'tag', 'content'), ('content_key', 'content', 'tag')):
         v = alg[0]['v']['fields'].get(fld)
-        ok, why = lookup_of(ctx, v, eparam, want, exclude=other)
+        ok, why, pending = False, '', None
+        for view_v in ([alg0[0]['v']['fields'].get(fld)] if alg0 else []) + [v]:
+            try:
+                ok, why = lookup_of(ctx, view_v, eparam, want, exclude=other)
+            except core.Incomplete as e_:
+                pending = e_
+                continue
+            if ok:
+                break
+        if not ok and pending is not None:
+            raise pending
         rep.check(ok, 'V1', f'algebraic:{fld}', f'{fld} = the `{want}` argument of #[serde(..)] on the enum', f'parse_enum: RustEnum::Algebraic.{fld} is `{vt.show(v)[:100]}` — expected the name-value argument `{want}` of the enum\'s own #[serde(..)] attributes ({why})', {'file': pe['file'], 'line': alg[0]['line']})
     cs = [c for c in ctx.fn('const_items_dummy', file='x') if False] if False else None
     const = [i for i in ctx.items('const', 'SERDE', 'parser.rs')]
